@@ -332,28 +332,11 @@ pub fn family() -> impl Strategy<Value = Vec<Vec<u8>>> {
 
 /// Evaluate a family under `eval` (the observable result as a string) and demand history independence.
 pub fn check_family(ctx: &Ctx, tag: &str, fam: &[Vec<u8>], eval: &(dyn Fn(&[u8]) -> String + Sync)) -> Check {
-    // inputs unrelated to every family, one per kind of state a decoder might keep (per downlink format, per Comm-B
-    // payload, per ADS-B type): evaluated together they evict single-entry caches of any of these kinds
-    let flushes: [&[u8]; 9] = [
-        &[0x5d, 0x48, 0x40, 0xd6, 0x20, 0x2c, 0xc3],
-        &[0x02, 0xe1, 0x98, 0x38, 0x1f, 0x6a, 0x2b],
-        &[0x20, 0x00, 0x17, 0x18, 0x5d, 0x33, 0x09],
-        &[0x28, 0x00, 0x1a, 0x1b, 0x64, 0x21, 0x7c],
-        &[0x8d, 0x40, 0x6b, 0x90, 0x20, 0x15, 0xa6, 0x78, 0xd4, 0xd2, 0x20, 0xaa, 0x4b, 0xda],
-        &[0x90, 0x40, 0x6b, 0x90, 0x58, 0xb9, 0x82, 0x6c, 0x51, 0x3b, 0x1a, 0x5e, 0x44, 0x20],
-        &[0xa0, 0x00, 0x18, 0x38, 0x20, 0x15, 0x84, 0xf2, 0x34, 0x68, 0x20, 0x7c, 0xdf, 0xa5],
-        &[0xa8, 0x00, 0x1e, 0xbc, 0xff, 0xfb, 0x23, 0x28, 0x60, 0x04, 0xa7, 0x3f, 0x6a, 0x5b],
-        &[0x80, 0xe1, 0x96, 0x90, 0x58, 0xb5, 0x01, 0x63, 0x87, 0xa2, 0xb4, 0xc9, 0xc5, 0x7a],
-    ];
-    let flush = || {
-        for f in flushes {
-            let _ = eval(f);
-        }
-    };
     let rep = serde_json::json!({"kind": "family", "frames": fam.iter().map(hex::encode).collect::<Vec<_>>()});
     let mut seen: Vec<Vec<String>> = vec![vec![]; fam.len()];
     // the reference evaluation of each member: alone on a brand-new thread, where thread-local state of any kind is
-    // still empty (the flush inputs can only evict state of the kinds they happen to exercise)
+    // still empty. (Earlier versions compared orders with each other after "flush" inputs; those only evict the kinds
+    // of state they happen to exercise, and a stale entry that survives makes all orders agree on the wrong answer.)
     for (i, f) in fam.iter().enumerate() {
         let r = std::thread::scope(|sc| sc.spawn(|| eval(f)).join());
         match r {
@@ -361,23 +344,19 @@ pub fn check_family(ctx: &Ctx, tag: &str, fam: &[Vec<u8>], eval: &(dyn Fn(&[u8])
             Err(_) => seen[i].push("PANIC in a fresh thread".to_string()),
         }
     }
-    flush();
+    // then on this thread, whose history is everything it has evaluated so far: the family in the given order and in
+    // reverse order
     for (i, f) in fam.iter().enumerate() {
         seen[i].push(eval(f));
     }
-    flush();
     for (i, f) in fam.iter().enumerate().rev() {
         seen[i].push(eval(f));
     }
-    for (i, f) in fam.iter().enumerate() {
-        flush();
-        seen[i].push(eval(f));
-    }
-    ctx.evals((3 * fam.len() + 9 * (2 + fam.len())) as u64);
+    ctx.evals(3 * fam.len() as u64);
     for (i, s) in seen.iter().enumerate() {
         // equal inputs in one family share their results
         if let Some(k) = (1..s.len()).find(|k| s[*k] != s[0]) {
-            let how = ["", "in the given order", "in reverse order", "alone after unrelated inputs"][k.min(3)];
+            let how = ["", "in the given order", "in reverse order"][k.min(2)];
             return Err(Failure::new(
                 format!("{tag}:result-depends-on-history"),
                 format!("input {} ({}) gives\n  {}\n{how} but\n  {}\nalone on a fresh thread", i, hex::encode(&fam[i]), s[k].chars().take(400).collect::<String>(), s[0].chars().take(400).collect::<String>()),
@@ -416,9 +395,11 @@ pub fn drive_families_with(ctx: &Ctx, tag: &'static str, cases: u32, eval: &(dyn
 /// 56 single-bit neighbours in the ME / MB field (parity / address kept right): a state keyed by the field *without*
 /// one of its bits (a status bit, a sign bit) gives the neighbour the frame's result.
 pub fn drive_bit_neighbours(ctx: &Ctx, tag: &'static str, fills: usize, eval: &(dyn Fn(&[u8]) -> String + Sync)) {
-    let shapes: Vec<Shape> = base_shapes().into_iter().filter(|s| s.df & 0x10 != 0).collect();
+    // the ME reader is shared by DF17 and DF18: one control field of DF18 is enough here
+    let shapes: Vec<Shape> = base_shapes().into_iter().filter(|s| s.df & 0x10 != 0 && !(s.df == 18 && s.ca != 0)).collect();
     let fails: Mutex<Vec<(usize, Failure)>> = Mutex::new(vec![]);
     let n = shapes.len() * fills;
+    let fresh = |f: &[u8]| std::thread::scope(|sc| sc.spawn(|| eval(f)).join()).unwrap_or_else(|_| "PANIC in a fresh thread".to_string());
     (0..n).into_par_iter().for_each(|i| {
         let f = base_frame(&shapes[i / fills], ctx.seed ^ (0x5eed + (i % fills) as u64));
         if f.len() != 14 {
@@ -431,11 +412,25 @@ pub fn drive_bit_neighbours(ctx: &Ctx, tag: &'static str, fills: usize, eval: &(
         } else {
             0
         };
+        let alone_f = fresh(&f);
         for bit in 32..88usize {
             let mut g = f.clone();
             g[bit / 8] ^= 0x80 >> (bit % 8);
             g = finish_frame(&g[..11], addr);
-            if let Err(e) = check_family(ctx, tag, &[f.clone(), g], eval) {
+            // reference: each alone on a fresh thread; then on this thread f, g, g, f (every adjacency in both orders)
+            let alone_g = fresh(&g);
+            let seq = [eval(&f), eval(&g), eval(&g), eval(&f)];
+            let bad = if seq[0] != alone_f || seq[3] != alone_f {
+                Some((0usize, if seq[0] != alone_f { &seq[0] } else { &seq[3] }, &alone_f))
+            } else if seq[1] != alone_g || seq[2] != alone_g {
+                Some((1usize, if seq[1] != alone_g { &seq[1] } else { &seq[2] }, &alone_g))
+            } else {
+                None
+            };
+            if let Some((k, got, want)) = bad {
+                let fam = [f.clone(), g.clone()];
+                let rep = serde_json::json!({"kind": "family", "frames": fam.iter().map(hex::encode).collect::<Vec<_>>()});
+                let e = Failure::new(format!("{tag}:result-depends-on-history"), format!("input {k} ({}) gives\n  {}\nright after its single-bit neighbour but\n  {}\nalone on a fresh thread", hex::encode(&fam[k]), got.chars().take(400).collect::<String>(), want.chars().take(400).collect::<String>()), rep);
                 let mut v = fails.lock().unwrap();
                 if v.len() < 64 {
                     v.push((i * 56 + bit, e));
@@ -444,6 +439,7 @@ pub fn drive_bit_neighbours(ctx: &Ctx, tag: &'static str, fills: usize, eval: &(
             }
         }
     });
+    ctx.evals((n * 56 * 5) as u64);
     let mut v = fails.into_inner().unwrap();
     v.sort_by_key(|x| x.0);
     let mut seen = std::collections::BTreeSet::new();
